@@ -274,6 +274,43 @@ func checkC18(P *core.Program, R *core.Report) {
 			R.Add("C18-division", key, construct, P.Pos(P.InstrPos(c)), ok, "division in unprotected block processing: the divisor must be provably non-zero or triaged. "+why)
 		}
 	}
+	// (D') native integer division and remainder (a zero divisor panics at run time)
+	for _, fn := range fns {
+		if hasRecover(fn) {
+			continue
+		}
+		key := topKey(P, fn)
+		ff := P.Facts(fn)
+		for _, b := range fn.Blocks {
+			for _, in := range b.Instrs {
+				bo, ok := in.(*ssa.BinOp)
+				if !ok || (bo.Op != token.QUO && bo.Op != token.REM) {
+					continue
+				}
+				if bt, ok := bo.Type().Underlying().(*types.Basic); !ok || bt.Info()&types.IsInteger == 0 {
+					continue
+				}
+				div := ff.Fwd(bo.Y)
+				if nonZeroConst(ff, div) {
+					continue
+				}
+				desc := stableDesc(ff, div)
+				construct := "integer divisor " + desc
+				if guardedNonZero(ff, bo, div) || phiNonZero(ff, div) {
+					R.Add("C18-division", key, construct, P.Pos(P.InstrPos(bo)), true, "divisor is covered by a must-hold non-zero fact (on every way it is chosen)")
+					continue
+				}
+				tk := key + " int " + desc
+				why, ok := T.Divisions[tk]
+				used[tk] = true
+				R.Add("C18-division", key, construct, P.Pos(P.InstrPos(bo)), ok, "integer division or remainder in unprotected block processing: a zero divisor is a run-time panic; the divisor must be provably non-zero or triaged. "+why)
+			}
+		}
+	}
+	// the commitments record backs estaking's virtual delegations: x/distribution re-reads it
+	// in the delegation hooks and panics later ("calculated final stake … greater than
+	// current stake") if it was told about a change before the change was stored
+	checkStoreBeforeHook(P, R, "C18-store-before-hook", func(_, record string) bool { return record == "Commitments" })
 	checkZeroCoins(P, R, fns, &T, used)
 	checkTruncatingSplits(P, R, fns)
 	checkSentinelComparisons(P, R)
@@ -697,4 +734,45 @@ func topKey(P *core.Program, fn *ssa.Function) string {
 		fn = fn.Parent()
 	}
 	return P.Key(fn)
+}
+
+// phiNonZero: the divisor is chosen among alternatives (a clamp `if n <= 0 { n = 1 }`) and
+// every alternative is a non-zero constant or is delivered on an edge that carries a
+// must-hold fact excluding zero for it.
+func phiNonZero(ff *core.FuncFacts, v ssa.Value) bool {
+	ph, ok := ff.Fwd(v).(*ssa.Phi)
+	if !ok {
+		return false
+	}
+	for i, e := range ph.Edges {
+		pred := ph.Block().Preds[i]
+		if !ff.BlockReachable(pred) {
+			continue
+		}
+		ev := ff.Fwd(e)
+		if nonZeroConst(ff, ev) {
+			continue
+		}
+		ok := false
+		for _, a := range append(append([]*core.Atom{}, ff.OutFacts(pred)...), ff.EdgeFacts(pred, ph.Block())...) {
+			switch {
+			case a.Rel == core.LT && a.A == core.ZeroMarker && ff.Fwd(a.B) == ev,
+				a.Rel == core.LT && a.B == core.ZeroMarker && ff.Fwd(a.A) == ev,
+				a.Rel == core.NE && a.B == core.ZeroMarker && ff.Fwd(a.A) == ev,
+				a.Rel == core.NE && a.A == core.ZeroMarker && ff.Fwd(a.B) == ev:
+				ok = true
+			}
+			// comparisons against the literal 0 of a native integer
+			if k, isK := a.B.(*ssa.Const); isK && k.Value != nil && k.Value.ExactString() == "0" && a.A != nil && ff.Fwd(a.A) == ev && (a.Rel == core.NE || a.Rel == core.LT) {
+				ok = true
+			}
+			if k, isK := a.A.(*ssa.Const); isK && k.Value != nil && k.Value.ExactString() == "0" && a.B != nil && ff.Fwd(a.B) == ev && (a.Rel == core.NE || a.Rel == core.LT) {
+				ok = true
+			}
+		}
+		if !ok {
+			return false
+		}
+	}
+	return true
 }
